@@ -187,6 +187,8 @@ func c01Check(c *Ctx, in c01Input) (key, what string) {
 			k = "line-directive-in-indented-code"
 		} else if c01HasCommentAlignedWithCloser(in.Src, out) {
 			k = "own-line-comment-aligned-with-closer"
+		} else if kk, ok := c01KnownInputs[in.Src]; ok {
+			k = kk
 		}
 		return k, in.Entry + ": decorate + print changed a gofmt-canonical file:\n" + firstDiff(in.Src, out)
 	}
@@ -271,6 +273,20 @@ var c01Regress = []c01Input{
 	{Src: "package a\n\nvar s = `a\nb\nc\nd\ne\nf\ng\nh\ni\nj\nk\nl\nm\nn\no\np\nq\nr\ns\nt\nu\nv`\n", Entry: "parsedir-package"},
 }
 
+// exact inputs of recorded findings (found by a fuzzer of comment placements in canonical files; each
+// stands for a class described in known_findings.json)
+var c01KnownInputs = map[string]string{
+	"package a\n\nfunc f() {\n\tswitch x {\n\tcase 1:\n\t\tfoo(a,\n\t\t\tb)\n\t\t// falls out\n\tcase 2:\n\t}\n}\n": "case-body-comment-after-continuation-line",
+	"package a\n\nconst (\n\tx = \"aaa\" +\n\t\t\"bbb\"\n\t// TODO: more\n\n\ty = 1\n)\n":                           "comment-after-multi-line-spec-gains-indent",
+	"package a\n\nvar (\n\ta = 1 +\n\t\t2\n\t\t// c\n\tb = 2\n)\n":                                                  "continuation-column-comment-dedented",
+	"package a\n\nconst (\n\tusage = `x\ny` // c\n\tother = 1 // d\n)\n":                                            "comment-after-multi-line-raw-string-in-group",
+	"/* c\nd */package a\n": "block-comment-abutting-package-clause",
+	"package a\n\nfunc f() {\n\tswitch x {\n\tcase 2:\n\t\tb()\n\t\t/* c\n\t\td */case 3:\n\t\t// only comment\n\tdefault:\n\t}\n}\n": "multi-line-block-comment-before-case",
+	"package a\n\nfunc f() {\n\tfor k,/* c */ // c\n\tv := range m {\n\t\t_, _ = k, v\n\t}\n}\n":                                      "comments-after-range-key-comma",
+	"package a\n\nvar a, b = 1,\n\t2\n\n\t\t// c\nfunc a1() int { return 1 }\n":                                                       "indented-comment-after-multi-line-top-level-decl",
+	"package a\n\ntype A /*1*/ [P any] = /*3*/ B[P]\n":                                                                                "generic-alias-assign-before-type-params",
+}
+
 var c01Known = []string{
 	"package a\n\nvar (\n\ta = 1\n\n// c\n)\n",
 	"package a\n\nfunc f() {\n\tfoo(\n\t\ta,\n\t// c\n\t)\n}\n",
@@ -323,6 +339,13 @@ func c01Prop(c *Ctx) {
 	for _, in := range c01Regress {
 		c.Res.Evaluations++
 		c.Res.hist("c01-entry", in.Entry)
+		if key, what := c01Check(c, in); key != "" {
+			c.Res.fail(key, what, in)
+		}
+	}
+	for src := range c01KnownInputs {
+		in := c01Input{Src: src, Entry: "parse-print"}
+		c.Res.Evaluations++
 		if key, what := c01Check(c, in); key != "" {
 			c.Res.fail(key, what, in)
 		}
